@@ -484,7 +484,7 @@ func newWebsocketLink(e *Engine, s *SimSess, ser string) *websocketLink {
 	}
 	l := &websocketLink{ws: cws, ser: serializerFor(ser), payload: payload, in: newInbuf()}
 	go func() {
-		peer := transport.NewWebsocketPeer(sws, serializerFor(ser), payload, e.Log, 0, qsize)
+		peer := transport.NewWebsocketPeer(sws, e.serverSerializer(ser), payload, e.Log, 0, qsize)
 		if s.Cfg.Cookie != "" || s.Cfg.NextCookie != "" {
 			// what WebsocketServer passes along with EnableTrackingCookie
 			_ = e.R.AttachClient(peer, wamp.Dict{"type": "websocket", "auth": wamp.Dict{"cookie": s.Cfg.Cookie, "nextcookie": s.Cfg.NextCookie}})
@@ -661,7 +661,7 @@ func newRawWSLink(e *Engine, s *SimSess, tr string) *rawWSLink {
 		qsize = 64
 	}
 	go func() {
-		peer := transport.NewWebsocketPeer(sws, serializerFor(ser), payload, e.Log, 0, qsize)
+		peer := transport.NewWebsocketPeer(sws, e.serverSerializer(ser), payload, e.Log, 0, qsize)
 		_ = e.R.Attach(peer)
 	}()
 	go func() {
